@@ -321,3 +321,15 @@ PROPS["C24"] = dict(
     level_text="Sampled images over the full PNG feature lattice with an exact per-pixel oracle.",
     level_note="Trusted base: gen/pnggen.rs (checked against the png crate on every case) and the sample unpacking in wl/c24.rs. JPEG and TIFF import are not driven (no independent decoder available offline).",
 )
+
+PROPS["C16"] = dict(
+    title="Page operations preserve page content and geometry",
+    level="exploration",
+    technique="differential monitor through an independent reader: generated source files (own PDF builder) go through split / merge / extract / reorder / reverse / swap / move / rotate via the public file API; pyref reads sources and outputs and compares, for every output page, the source page expected at that position: content tokens, MediaBox incl. origin, CropBox, /Rotate composition, and the fonts and XObjects the content uses (by BaseFont / decoded bytes)",
+    stages=[rust(), py("pyref.checks.c16")],
+    rule="sources of 1-8 pages, flat or two-level page trees with inherited MediaBox / Resources / Rotate, boxes with non-zero and fractional origins, CropBox, /Rotate in {0,90,180,270,-90,450}, one or two content streams, shared fonts, image and form XObjects; operations with every parameter form: index lists with repeats, all PageRange variants, chunk sizes incl. 0 and > n, several ranges, split points, merges of 2-3 files with per-input ranges, permutations, swaps and moves incl. out-of-range, rotations by 0/90/180/270 of a selection. A selection that is not valid for the document must be refused. Non-trivial: every case; distinct by case",
+    assumptions=["a valid selection is one whose indices all exist (Range needs start <= end, List needs at least one index)", "/Rotate is compared modulo 360", "for SplitAt only conservation is judged (all pages once, in order)"],
+    floors={"quick": {"evaluations": 1000, "distinct": 900, "counters": {"output_pages_compared": 2500}}, "thorough": {"evaluations": 60000, "distinct": 50000}},
+    level_text="Sampled sources and parameters; exact comparison per output page.",
+    level_note="Trusted base: pyref/pdf.py and gen/rawpdf.rs. Annotations, outlines and form fields across operations are not judged.",
+)
